@@ -1386,7 +1386,10 @@ func (e *env) discard(rt *rapid.T) {
 		lo = 0
 	}
 	since := uint64(rapid.IntRange(lo, int(p)+1).Draw(rt, "discardSince"))
-	if p > n && rapid.IntRange(0, 2).Draw(rt, "discardValid") > 0 {
+	switch mode := rapid.IntRange(0, 3).Draw(rt, "discardMode"); {
+	case mode == 0 && n > 0:
+		since = n // the last committed transaction: must be refused
+	case mode <= 2 && p > n:
 		since = uint64(rapid.IntRange(int(n)+1, int(p)).Draw(rt, "discardSinceValid"))
 	}
 	e.c.Descf("D%d/%d/%d", since, n, p)
@@ -1469,8 +1472,10 @@ func (e *env) reopen(rt *rapid.T, afterFault bool) {
 	} else {
 		e.cancelPending(0)
 	}
+	underCommitters := len(e.pending) > 0
 	err := e.st.Close()
-	if err != nil && !e.faultSinceOpen {
+	if err != nil && !e.faultSinceOpen && !underCommitters {
+		// (closed under waiting commit calls, Close may find a tx holder that a call which just precommitted has not handed back yet)
 		e.failf("Close: %v", err)
 	}
 	e.cancelPending(0)
@@ -1706,13 +1711,13 @@ func runCase(rt *rapid.T, c *vk.Case, ext bool) {
 }
 
 func TestHistoryImmutable(t *testing.T) {
-	vk.Check(t, 400, 10000, func(rt *rapid.T, c *vk.Case) {
+	vk.Check(t, 400, 8000, func(rt *rapid.T, c *vk.Case) {
 		runCase(rt, c, false)
 	})
 }
 
 func TestHistoryImmutableExternalAllowance(t *testing.T) {
-	vk.Check(t, 280, 6000, func(rt *rapid.T, c *vk.Case) {
+	vk.Check(t, 280, 5000, func(rt *rapid.T, c *vk.Case) {
 		runCase(rt, c, true)
 	})
 }
